@@ -16,7 +16,7 @@ algorithms.
 import inspect
 
 from ufl.algorithms.map_integrands import map_integrands
-from ufl.classes import Variable, all_ufl_classes
+from ufl.classes import Variable
 from ufl.core.ufl_type import UFLType
 
 
@@ -43,13 +43,24 @@ class Transformer:
             variable_cache = {}
         self._variable_cache = variable_cache
 
-        # Analyse class properties and cache handler data the
-        # first time this is run for a particular class
+        self._update_handlers()
+        # Keep a stack of objects visit is called on, to ease
+        # backtracking
+        self._visit_stack = []
+
+    def _update_handlers(self):
+        """Build the handler table of this object, covering every registered type.
+
+        The class properties are analysed and the handler data cached the
+        first time this is run for a particular class. The cached data is
+        rebuilt if types have been registered with ``ufl_type`` since it was built.
+        """
+        all_classes = UFLType._ufl_all_classes_
         cache_data = Transformer._handlers_cache.get(type(self))
-        if not cache_data:
-            cache_data = [None] * len(all_ufl_classes)
+        if not cache_data or len(cache_data) != len(all_classes):
+            cache_data = [None] * len(all_classes)
             # For all UFL classes
-            for classobject in all_ufl_classes:
+            for classobject in all_classes:
                 # Iterate over the inheritance chain
                 # (NB! This assumes that all UFL classes inherits a single
                 # Expr subclass and that this is the first superclass!)
@@ -75,9 +86,6 @@ class Transformer:
         # Build handler list for this particular class (get functions
         # bound to self)
         self._handlers = [(getattr(self, name), post) for (name, post) in cache_data]
-        # Keep a stack of objects visit is called on, to ease
-        # backtracking
-        self._visit_stack = []
 
     def print_visit_stack(self):
         """Print visit stack."""
@@ -100,7 +108,12 @@ class Transformer:
 
         # Get handler for the UFL class of o (type(o) may be an
         # external subclass of the actual UFL class)
-        h, visit_children_first = self._handlers[o._ufl_typecode_]
+        try:
+            h, visit_children_first = self._handlers[o._ufl_typecode_]
+        except IndexError:
+            # The type of o was registered after the table was built
+            self._update_handlers()
+            h, visit_children_first = self._handlers[o._ufl_typecode_]
 
         # Is this a handler that expects transformed children as
         # input?
